@@ -13,13 +13,16 @@ MODS = {
 }
 MODS["fsm_a2"] = MODS["fsm_a1"].replace("V = 1", "V = 2")
 MODS["fsm_b1"] = "import dds, pipelog\nW = 7\ndef h():\n    pipelog.hit('h')\n    return 'h(%d)' % W\n"
+# a reader: loads a path another pipeline produces and keeps something derived from it
+MODS["fsm_r1"] = ("import dds, pipelog\ndef reader():\n    pipelog.hit('reader')\n    return 'r(' + dds.load('/a/x') + ')'\n"
+                  "def root_r():\n    pipelog.hit('root_r')\n    return dds.keep('/out/r', reader)\n")
 PIPELOG = "cur = []\ndef hit(name):\n    cur.append(name)\n"
 
 
 def expected(mod, fn):
     v = 2 if mod.endswith("a2") else 1
     return {"f": "f(%d)" % v, "g": "g(%d)" % v, "p": {"k": [v, 2, 3], "s": "x" * 40}, "b": b"\x00\x01" * 8 + bytes([v]), "n": None,
-            "root": "f(%d)g(%d)" % (v, v), "h": "h(7)"}[fn]
+            "root": "f(%d)g(%d)" % (v, v), "h": "h(7)", "root_r": None, "reader": None}[fn]
 
 
 def write_modules(scratch):
